@@ -105,10 +105,7 @@ def run(chk):
     rows = [x for x in rows if x.get('k') == 'reduce']
     chk.extra['small_world'] = {'configurations': len(rows)}
     chk.exhaustive = True
-    obs = []
-    for part in core.parallel_map(_small, [(row, pid, tier, i) for i, row in enumerate(rows)], chunksize=1):
-        obs += part
     n = (160 if tier == 'quick' else 3000)
-    for part in core.parallel_map(_wide, [(chk.seed * 1000 + i, pid, n // core.NPROC + 1) for i in range(core.NPROC)]):
-        obs += part
-    return obs
+    per = max(1, n // (core.NPROC * (1 if tier == 'quick' else 8)))
+    wjobs = [(chk.seed * 1000 + i, pid, per) for i in range(n // per)]
+    return core.stream(_small, [(row, pid, tier, i) for i, row in enumerate(rows)], _wide, wjobs, tier, step=32, chunksize=1)
